@@ -378,7 +378,7 @@ def generate(rng):
             if rng.random() < 0.3:
                 nested = {"op": "del", "h": other, "k": hx(k), "via": "m", "on": "live"}
             cmds[j] = dict(cmds[j], ipose={"at": rng.randint(1, 8), "cmd": nested})
-    return {"prop": ID, "cfg": {"prune": False, "handles": nh, "cache": cache, "probe": [hx(k) for k in probes]}, "cmds": cmds}
+    return {"prop": ID, "cfg": {"prune": False, "handles": nh, "cache": cache, "store": rng.choice(["min", "min", "dict"]), "probe": [hx(k) for k in probes]}, "cmds": cmds}
 
 
 def explore(rng, st):
@@ -397,6 +397,6 @@ def explore(rng, st):
         for n in range(1, n_writes + 1):
             for applied in (0, 1):
                 cmds = list(case["cmds"])
-                cmds[i] = dict(cmds[i], fw=[n, applied, "EKO"[(n + applied) % 3]], _last=n_writes)
+                cmds[i] = dict(cmds[i], fw=[n, applied, "EKOB"[(n + applied) % 4]], _last=n_writes)
                 execute({"prop": ID, "cfg": case["cfg"], "cmds": cmds}, st)
     st.nontrivial = nontrivial
